@@ -526,7 +526,7 @@ def reverse_dns(ctx):
     import ipaddress
     from ..absint import Val, run as arun, struct_val, variant as avariant, vstr
     IDK = "acmed::identifier::Identifier"
-    samples = ["192.0.2.7", "10.200.30.4", "2001:db8:85a3::8a2e:370:7334", "fe80::1c2d:3e4f:a7b6:95d8"]
+    samples = ["192.0.2.7", "10.200.30.4", "2001:db8:85a3::8a2e:370:7334", "fe80::1c2d:3e4f:a7b6:95d8", "64:ff9b::102:304", "::1", "::ffff:192.0.2.7", "0.0.0.9"]
     results = {}
     for a in samples:
         idv = struct_val(prog, IDK, {"id_type": avariant("acmed::identifier::IdentifierType", "Ip"), "value": vstr(a)})
